@@ -14,8 +14,8 @@ CHECKS = {
             "Trusts the hooks in src/runtime.rs (state logged at the linearisation point) and the trace normaliser (representation changes only); programs are a hand-written pool + the shipped scripts; sweep is sub-sampled in the quick tier.",
             "DESIGN.md 6 C09, 5 XrRuntime"),
     "C02": ("model_checking",
-            "TLA+ reference semantics (XrEval/XrCore, XrSyntax) evaluated by TLC; behaviours replayed into the interpreter",
-            "TLC evaluates every generated core program with the executable reference semantics XrEval (values of all top-level bindings, host-call results, output lines) and enumerates all operator chains of 2-3 binary operators with the documented grouping (XrSyntax); the interpreter must reproduce each predicted behaviour binding by binding and line by line, for every call spelling.",
+            "TLA+ reference semantics (XrEval/XrCore, XrSyntax) evaluated by TLC; behaviours replayed into the interpreter; TLA+ acceptor of exact float arithmetic on dyadic rationals (XrFloatExact) over observed operator results",
+            "TLC evaluates every generated core program with the executable reference semantics XrEval (values of all top-level bindings, host-call results, output lines) and enumerates all operator chains of 2-3 binary operators with the documented grouping (XrSyntax); the interpreter must reproduce each predicted behaviour binding by binding and line by line, for every call spelling. Float + - * ** sqrt floor ceil neg abs on operands where the result is an exactly representable dyadic rational are recorded and decided by XrFloatExact.",
             "Fragment = what XrEval defines (ints within +-1e8, bool, str, sequences, optionals, tuples, structs, unions, closures, defaults, recursion, errors, display); builtin error texts and the evaluation of arguments right of an error argument are left open; programs are drawn by a seeded typed generator (depth <= 8, <= 40 declarations in the thorough tier).",
             "DESIGN.md 6 C02, 5 XrEval/XrSyntax"),
     "C06": ("model_checking",
@@ -79,7 +79,7 @@ CHECKS = {
             "Keys are ints 0..5 (0..2 / 0..3 in the exhaustive tries), values ints; iteration order is not compared; hashes outside [0, 2^64) are not in this machine; the exhaustive part is complete within its bounds (3 keys, colliding hash, quick; more configurations thorough) and also compares == / hash between equal-size versions.",
             "DESIGN.md 6 C17"),
     "C18": ("model_checking",
-            "TLA+ code-point-sequence semantics of str (XrStr pool machine, -simulate) + literal encoder; behaviours replayed; TLA+ acceptor of the dual string representation (XrStrRepr) over substring positions at and beyond the end",
+            "TLA+ code-point-sequence semantics of str (XrStr pool machine, -simulate) + literal encoder; behaviours replayed; TLA+ acceptor of the dual string representation (XrStrRepr) over substring positions at and beyond the end; TLA+ acceptor of regex search / match answers in code points (XrRegex)",
             "TLC random-walks string operations (len, get, substring, find with start, rfind, contains, starts/ends_with, partition, rpartition, strip family, replace, reverse, mul, lower, upper, cmp, chars, add, split, code_point, eq) over an abstract alphabet of 1-4 byte characters, a combining mark and case-expanding characters and records results by list semantics (positions are code-point positions); the interpreter must agree and the dual representation of every result (byte buffer + character table) must be exact. Literal spellings are generated by encoding a text (quote kind, fences, raw, escapes, formatted) and must denote that text; formatted strings must equal the join of their parts.",
             "Negative substring / find positions, empty needles, the text returned for positions beyond the end (only its well-formedness is decided) and \\u{..} inside formatted strings are left open by the documentation and not generated (negative get indices are pinned by shipped script 089 and are generated).",
             "DESIGN.md 6 C18"),
